@@ -364,6 +364,9 @@ func checkNoNondeterminism(p *core.Program, r *core.Report, ctx *circuitCtx) {
 				case *ssa.Call:
 					if sc := x.Common().StaticCallee(); sc != nil && sc.Pkg != nil {
 						if why, bad := denyPkg[sc.Pkg.Pkg.Path()]; bad {
+							if sc.Pkg.Pkg.Path() == "time" && onlyFeedsLogging(x, 0, map[ssa.Value]bool{}) {
+								continue // stage timing that ends in log fields cannot reach the constraint system
+							}
 							nBad++
 							r.Violation("O12.4", name+": call to "+sc.String(), p.Pos(x.Pos()), "definition/construction code consults a %s", why)
 						}
@@ -433,3 +436,79 @@ func mapRangeFeedsConstraints(fn *ssa.Function, rg *ssa.Range) bool {
 }
 
 var _ = ast.Inspect
+
+// onlyFeedsLogging: every use of v (transitively through time arithmetic, conversions, local cells, closures capturing it
+// and φ) ends as an argument of a logging call (zerolog, the repository's logging package, package log) or of another
+// time function whose result is used the same way.
+func onlyFeedsLogging(v ssa.Value, depth int, seen map[ssa.Value]bool) bool {
+	if depth > 10 {
+		return false
+	}
+	if seen[v] {
+		return true
+	}
+	seen[v] = true
+	refs := v.Referrers()
+	if refs == nil {
+		return false
+	}
+	for _, ref := range *refs {
+		switch x := ref.(type) {
+		case *ssa.DebugRef:
+		case *ssa.Extract, *ssa.Phi, *ssa.Convert, *ssa.ChangeType, *ssa.MakeInterface:
+			if !onlyFeedsLogging(x.(ssa.Value), depth+1, seen) {
+				return false
+			}
+		case *ssa.UnOp:
+			if !onlyFeedsLogging(x, depth+1, seen) {
+				return false
+			}
+		case *ssa.Store:
+			if x.Addr == v {
+				continue // v is a cell being written
+			}
+			al, ok := x.Addr.(*ssa.Alloc)
+			if !ok || x.Val != v {
+				return false
+			}
+			if !onlyFeedsLogging(al, depth+1, seen) {
+				return false
+			}
+		case *ssa.MakeClosure:
+			fn, _ := x.Fn.(*ssa.Function)
+			if fn == nil {
+				return false
+			}
+			for k, bnd := range x.Bindings {
+				if bnd == v && k < len(fn.FreeVars) {
+					if !onlyFeedsLogging(fn.FreeVars[k], depth+1, seen) {
+						return false
+					}
+				}
+			}
+		case ssa.CallInstruction:
+			com := x.Common()
+			pkg := ""
+			if sc := com.StaticCallee(); sc != nil {
+				pkg = pkgPathOf(sc)
+			} else if com.IsInvoke() && com.Method.Pkg() != nil {
+				pkg = com.Method.Pkg().Path()
+			}
+			switch {
+			case pkg == "time":
+				if val, ok := x.(ssa.Value); ok {
+					if !onlyFeedsLogging(val, depth+1, seen) {
+						return false
+					}
+				}
+			case pkg == "github.com/rs/zerolog" || pkg == "log" || strings.HasSuffix(pkg, "/logging"):
+				// a log field or message: the value ends here
+			default:
+				return false
+			}
+		default:
+			return false
+		}
+	}
+	return true
+}
